@@ -161,10 +161,25 @@ func vsrvC08Script(s *vsrvSession, rng *rand.Rand, d *vsrvC08Desc, directed int)
 
 	planTotal := map[uint32]int{}
 	var openedIDs []uint32
+	// graceful shutdown: after the client's GOAWAY(NO_ERROR) the server answers with its own and
+	// keeps serving the streams that are open; their windows still have to work
+	sentGoAway := false
+	goAwayStep := -1
+	if rng.IntN(4) == 0 {
+		goAwayStep = rng.IntN(d.Steps + 1)
+	}
+	alive := func() bool {
+		if !sentGoAway {
+			return s.alive()
+		}
+		s.mu.Lock()
+		defer s.mu.Unlock()
+		return !s.srvClosed && !s.cliClosed && len(s.panics) == 0 && (!s.goAway || s.goAwayCode == 0)
+	}
 	nextID := uint32(1)
 	opened := 0
 	open := func() {
-		if opened >= d.Streams {
+		if opened >= d.Streams || sentGoAway {
 			return
 		}
 		id := nextID
@@ -271,7 +286,16 @@ func vsrvC08Script(s *vsrvSession, rng *rand.Rand, d *vsrvC08Desc, directed int)
 		}
 	}
 
-	for step := 0; step < d.Steps && s.alive(); step++ {
+	for step := 0; step < d.Steps && alive(); step++ {
+		if step == goAwayStep && opened > 0 {
+			s.cliWrite(h2ref.AppendGoAway(nil, 0, h2ref.ErrNo, nil))
+			sentGoAway = true
+			s.mu.Lock()
+			s.ev["sessions_with_client_goaway_no_error_mid_session"]++
+			s.mu.Unlock()
+			note("GOAWAY(NO_ERROR) from the client")
+			maybeSettle(0.5)
+		}
 		vs, connWin := look()
 		switch a := rng.IntN(100); {
 		case a < 30: // stream WINDOW_UPDATE
@@ -340,13 +364,13 @@ func vsrvC08Script(s *vsrvSession, rng *rand.Rand, d *vsrvC08Desc, directed int)
 		}
 		maybeSettle(0.55)
 	}
-	for opened < d.Streams && s.alive() {
+	for opened < d.Streams && alive() && !sentGoAway {
 		open()
 	}
 	s.settle()
 
 	// Final phase: open every window wide enough and require every response to complete.
-	for round := 0; round < 8 && s.alive(); round++ {
+	for round := 0; round < 8 && alive(); round++ {
 		vs, connWin := look()
 		var need int64
 		busy := false
@@ -375,7 +399,8 @@ func vsrvC08Script(s *vsrvSession, rng *rand.Rand, d *vsrvC08Desc, directed int)
 	}
 	note("final phase done")
 	s.mu.Lock()
-	if s.healthy() {
+	// (in a graceful shutdown the server hangs up once the last stream is done: judged all the same)
+	if s.healthy() || sentGoAway && len(s.panics) == 0 && !s.cliClosed && (!s.goAway || s.goAwayCode == 0) {
 		for _, id := range s.order {
 			st := s.streams[id]
 			if !st.opened || st.cliRST || st.srvRST {
